@@ -163,7 +163,7 @@ def worker(spec):
             return ("ag1", gen(depth + 1, True))
         regs = []
         for _ in range(rng.randint(0, 4)):
-            m = rng.choice(["enter_context", "push_cm", "push_fn", "push_meth", "callback"] +
+            m = rng.choice(["enter_context", "push_cm", "push_fn", "push_meth", "callback", "again"] +
                            (["enter_async_context", "push_async_exit_cm", "push_async_exit_fn", "push_async_exit_meth",
                              "push_async_callback"] if k == "AES" else []))
             sub = None
@@ -215,6 +215,22 @@ def worker(spec):
                 m.__enter__()
                 st.push(m)
                 exp.append(("enter_context", m, False, e))
+            elif meth == "again":
+                # the same object registered a second time through another route
+                prev = [e for e in exp if e[0] in ("enter_context", "push") and isinstance(e[1], S)]
+                if prev:
+                    o = prev[-1][1]
+                    st.push(o.close)
+                    exp.append(("push", o, False, None))
+                    res.count("same_object_registered_twice")
+                else:
+                    o = S(False)
+                    st.push(o.close)
+                    exp.append(("push", o, False, None))
+                    bm = o.close
+                    st.callback(bm, 1)
+                    exp.append(("callback", bm, False, None))
+                    res.count("same_object_registered_twice")
             elif meth == "push_fn":
                 st.push(fn)
                 exp.append(("push", fn, False, None))
